@@ -409,7 +409,7 @@ def options_layout(wd, t):
     mp = write_text(os.path.join(wd, "MCOL.tla"), "---- MODULE MCOL ----\nEXTENDS OptionsLayout\n" + consts + "====\n")
     cp = write_text(os.path.join(wd, "MCOL.cfg"), cfgc + "SPECIFICATION Spec\nVIEW View\nINVARIANT Emit BuildIsFold ProvisionalSorted SingleKinds FinalizeIsSizeNeutral "
                     "FinalizeKeepsTheRest NoIntervalNoTable DeclaredAlwaysGetsItsTable TableHasThePoints UserBlocksKeepTheirOrder\nCHECK_DEADLOCK FALSE\n")
-    r = tlc(mp, cp, wd, workers=2, timeout=2400)
+    r = tlc(mp, cp, wd, workers=1, timeout=2400)
     if r["errors"]:
         sys.stderr.write(r["out"][-2000:])
         raise ToolError("OptionsLayout model check failed")
